@@ -44,7 +44,9 @@ vars  == <<cvars, bvars, tvars, cmap, viol>>
 \*   copyin2                : COPY .. FROM STDIN; <second statement whose reply needs two recv() calls>
 \*   copydone               : CopyDone
 \*   big                    : statement whose reply exceeds the 8196-byte buffer (two recv() calls)
-FirstKinds == {"begin", "stmt", "fail", "set", "copyin", "copyin2", "big"}
+\*   prep                   : PREPARE (session state that is NOT undone by ROLLBACK)
+\*   slow                   : statement that runs longer than the pool's statement_timeout
+FirstKinds == {"begin", "stmt", "fail", "set", "prep", "copyin", "copyin2", "big", "slow"}
 Kinds == FirstKinds \cup {"commit", "copydone"}
 
 Init ==
@@ -147,6 +149,7 @@ Exec(c, s, k, loops) ==
      \* (kept) or ROLLBACK / error (dropped)
      /\ tDirt' = [tDirt EXCEPT ![s] =
                     IF k = "set" /\ tTx[s] = "I" /\ tCopy[s] = "no" THEN c
+                    ELSE IF k = "prep" /\ tTx[s] # "E" /\ tCopy[s] = "no" THEN c
                     ELSE IF k = "commit" /\ tTx[s] = "T" /\ tPend[s] # NONE THEN tPend[s]
                     ELSE IF handoff /\ ~unclean THEN NONE ELSE @]
      /\ tPend' = [tPend EXCEPT ![s] =
@@ -154,25 +157,29 @@ Exec(c, s, k, loops) ==
                     ELSE IF ntx = "I" THEN NONE ELSE @]
      /\ last' = [last EXCEPT ![s] = c]
      \* belief follows the last ReadyForQuery seen; CopyInResponse carries none
+     \* (deviation failed_tx_counts_as_idle: status E is taken for "transaction over")
      /\ bTx' = [bTx EXCEPT ![s] = IF ncopy = "in" THEN @
                                   ELSE IF two /\ ~loops THEN @
+                                  ELSE IF "failed_tx_counts_as_idle" \in Dev THEN ntx = "T"
                                   ELSE ntx # "I"]
      /\ bCopy' = [bCopy EXCEPT ![s] = IF two /\ ~loops THEN TRUE ELSE ncopy = "in"]
      /\ bData' = [bData EXCEPT ![s] = two /\ ~loops]
      \* cleanup_state: marked on every SET (deviation: only when believed outside a transaction)
      /\ dirty' = [dirty EXCEPT ![s] = @ \/ (k = "set" /\ tCopy[s] = "no" /\ tTx[s] # "E"
-                                              /\ (~bTx[s] \/ "set_in_tx_not_marked" \notin Dev))]
+                                              /\ (~bTx[s] \/ "set_in_tx_not_marked" \notin Dev))
+                                          \/ (k = "prep" /\ tCopy[s] = "no" /\ tTx[s] # "E"
+                                              /\ "prepare_not_marked" \notin Dev)]
 
 \* Release decision of the inner loop (client.rs: Q arm, S arm, c|f arm).
 ReleaseNow(s, k) ==
-  /\ TxMode
+  /\ (TxMode \/ "session_mode_releases" \in Dev)
   /\ ~bTx'[s]
   /\ IF k = "copydone"
      THEN ("copydone_no_copy_check" \in Dev) \/ ~bCopy'[s]
      ELSE ~bCopy'[s]
 
 Forward(c) ==
-  /\ pc[c] = "fwd"
+  /\ pc[c] = "fwd" /\ pend[c] # "slow"
   /\ LET s == held[c]
          k == pend[c]
          loops == (k # "copydone") \/ ("copydone_single_recv" \notin Dev)
@@ -191,12 +198,18 @@ NextMsg(c, k) ==
 \* Server::checkin_cleanup: ROLLBACK when believed in a transaction, RESET/DEALLOCATE when
 \* marked dirty; COPY mode only produces a warning.  A simple query sent into an open
 \* COPY IN aborts the COPY on the server.
+\* Design: ROLLBACK first, then the reset statements.  Deviation reset_before_rollback: the reset runs
+\* inside the still-open transaction - refused in a failed one, undone by the ROLLBACK in a healthy one.
 CleanupEffect(s) ==
-  LET sends == bTx[s] \/ dirty[s] IN
-  /\ tTx' = [tTx EXCEPT ![s] = IF bTx[s] THEN "I" ELSE @]
+  LET rb == bTx[s] /\ "no_rollback_at_checkin" \notin Dev      \* ROLLBACK is sent
+      rs == dirty[s] /\ "no_reset_at_checkin" \notin Dev        \* RESET / DEALLOCATE is sent
+      sends == rb \/ rs
+      resetWorks == ~("reset_before_rollback" \in Dev /\ tTx[s] # "I") /\ (tTx[s] = "I" \/ rb)
+  IN
+  /\ tTx' = [tTx EXCEPT ![s] = IF rb THEN "I" ELSE @]
   /\ bTx' = [bTx EXCEPT ![s] = FALSE]
-  /\ tDirt' = [tDirt EXCEPT ![s] = IF dirty[s] THEN NONE ELSE @]
-  /\ tPend' = [tPend EXCEPT ![s] = IF bTx[s] THEN NONE ELSE @]
+  /\ tDirt' = [tDirt EXCEPT ![s] = IF rs /\ resetWorks THEN NONE ELSE @]
+  /\ tPend' = [tPend EXCEPT ![s] = IF rb THEN NONE ELSE @]
   /\ dirty' = [dirty EXCEPT ![s] = FALSE]
   /\ tCopy' = [tCopy EXCEPT ![s] = IF sends THEN "no" ELSE @]
   /\ tUnread' = [tUnread EXCEPT ![s] = IF sends /\ tCopy[s] = "in" THEN FALSE ELSE @]
@@ -219,7 +232,8 @@ EndWithCleanup(c, exit) ==
        /\ CleanupEffect(s)
        /\ PutBack(s, bad[s], bTx'[s], bCopy[s], bData[s], dirty'[s])
        /\ UNCHANGED <<bad, last>>
-  /\ held' = [held EXCEPT ![c] = NONE] /\ cmap' = [cmap EXCEPT ![c] = NONE]
+  /\ held' = [held EXCEPT ![c] = NONE]
+  /\ cmap' = [cmap EXCEPT ![c] = IF "map_kept_after_release" \in Dev /\ ~exit THEN @ ELSE NONE]
   /\ pc' = [pc EXCEPT ![c] = IF exit THEN "gone" ELSE "idle"]
   /\ UNCHANGED <<pend, nmsg, viol>>
 
@@ -228,7 +242,9 @@ EndWithCleanup(c, exit) ==
 \* Client leaves the cancel map; the guard is dropped.
 EarlyReturn(c) ==
   /\ pc[c] = "intx"
-  /\ LET s == held[c] IN PutBack(s, bad[s], bTx[s], bCopy[s], bData[s], dirty[s])
+  /\ LET s == held[c] IN
+       IF "early_return_leaks_guard" \in Dev THEN UNCHANGED <<alive, idle>>   \* connection never comes back
+       ELSE PutBack(s, bad[s], bTx[s], bCopy[s], bData[s], dirty[s])
   /\ held' = [held EXCEPT ![c] = NONE] /\ cmap' = [cmap EXCEPT ![c] = NONE]
   /\ pc' = [pc EXCEPT ![c] = "gone"]
   /\ UNCHANGED <<pend, nmsg, bTx, bCopy, bData, bad, dirty, tvars, viol>>
@@ -242,6 +258,20 @@ ServerFail(c) ==
   /\ held' = [held EXCEPT ![c] = NONE] /\ cmap' = [cmap EXCEPT ![c] = NONE]
   /\ pc' = [pc EXCEPT ![c] = "gone"]
   /\ UNCHANGED <<pend, nmsg, bTx, bCopy, bData, dirty, tvars, viol>>
+
+\* The statement runs past statement_timeout: the client is told and leaves; the server still owes the
+\* reply, so the connection must be discarded (mark_bad).  Deviation timeout_keeps_connection: it is not.
+StatementTimeout(c) ==
+  /\ pc[c] = "fwd" /\ pend[c] = "slow"
+  /\ LET s == held[c]
+         keep == "timeout_keeps_connection" \in Dev
+     IN /\ tUnread' = [tUnread EXCEPT ![s] = TRUE] /\ last' = [last EXCEPT ![s] = c]
+        /\ bad' = [bad EXCEPT ![s] = ~keep]
+        /\ PutBack(s, ~keep, bTx[s], bCopy[s], bData[s], dirty[s])
+        /\ UNCHANGED <<bTx, bCopy, bData, dirty, tTx, tCopy, tDirt, tPend>>
+  /\ held' = [held EXCEPT ![c] = NONE] /\ cmap' = [cmap EXCEPT ![c] = NONE]
+  /\ pc' = [pc EXCEPT ![c] = "gone"]
+  /\ UNCHANGED <<pend, nmsg, viol>>
 
 \* Client leaves while idle (Terminate, socket drop, shutdown kick).
 Leave(c) ==
@@ -261,7 +291,7 @@ Next ==
      \/ Connect(c) \/ Leave(c) \/ Cancel(c)
      \/ (\E k \in Kinds : SendFirst(c, k) \/ NextMsg(c, k))
      \/ (\E s \in Conns : Checkout(c, s)) \/ CheckoutTimeout(c)
-     \/ Forward(c) \/ ServerFail(c)
+     \/ Forward(c) \/ ServerFail(c) \/ StatementTimeout(c)
      \/ EndWithCleanup(c, TRUE) \/ EndWithCleanup(c, FALSE) \/ EarlyReturn(c)
 
 Spec == Init /\ [][Next]_vars
@@ -301,6 +331,11 @@ MapSound == \A c \in Clients : cmap[c] # NONE => held[c] = cmap[c]
 \* Belief never claims "idle and clean" while the session is inside a transaction.
 BeliefSound ==
   \A s \in Conns : alive[s] /\ idle[s] => ~bTx[s]
+
+Deviations == {"putback_reuses_unclean", "copydone_single_recv", "copydone_no_copy_check", "set_in_tx_not_marked",
+               "reset_before_rollback", "timeout_keeps_connection", "failed_tx_counts_as_idle", "prepare_not_marked",
+               "session_mode_releases", "no_rollback_at_checkin", "no_reset_at_checkin", "map_kept_after_release",
+               "early_return_leaks_guard"}
 
 Quiescent == \A c \in Clients : pc[c] \in {"off", "idle", "gone"}
 
